@@ -44,6 +44,7 @@ class HarnessBug(HarnessSignal):
     test cannot turn it into a Disconnected event: the check then ends with a harness error (exit 2)."""
 
 
+CASE_PRELUDE = None     # see run_scenario
 BUG_LOG = []       # every HarnessBug raised in this process (checked by the runner after each case)
 
 _BUG_TYPES = (TypeError, AttributeError, KeyError, IndexError, NameError, AssertionError, ZeroDivisionError)
@@ -1080,6 +1081,21 @@ def run_scenario(scenario, on_event=None):
     """Run one connect() of the real client against the scenario; returns a Trace."""
     global CURRENT
     install()
+    ws = None
+    # the scenario's own prelude, else the one of the case being run (set by the runner from case["prelude"])
+    prelude = scenario["prelude"] if "prelude" in scenario else CASE_PRELUDE
+    if prelude:
+        # an EARLIER connection made in this process, which ended the way the prelude says: on the same
+        # WebSocket object (then reused for the run proper) or on another one.  It has its own simulation;
+        # whatever it leaves behind in the client is the only thing the run proper can see of it.
+        pre = dict(scenario, attempts=prelude["attempts"], reactions=prelude.get("reactions", []), prelude=None)
+        for k in ("masks", "_send_hook", "_idle_hook", "horizon"):
+            pre.pop(k, None)
+        pre_tr = run_scenario(pre)
+        if prelude.get("same_object"):
+            ws = pre_tr.ws
+        pre_tr.held = None
+        del pre_tr
     if ON_RUN is not None:
         ON_RUN()
     sim = Sim(scenario)
@@ -1088,7 +1104,8 @@ def run_scenario(scenario, on_event=None):
     tr.sim = sim
     tr.log_start = 0
     try:
-        ws = make_ws(scenario)
+        if ws is None:
+            ws = make_ws(scenario)
         tr.ws = ws
         _drive(ws, scenario, sim, tr, on_event)
     finally:
